@@ -4,11 +4,14 @@
 # then runs the property's check against /repo with the patch applied and reverts.
 set -u
 ID=$1; PROP=$2; WT=$3; FILTER=$4; shift 4
+[ "$FILTER" = "-" ] && FILTER=""
 OUT=/verif/seeded/$ID
 mkdir -p $OUT
 cp $WT/seeded/patch.diff $OUT/patch.diff
 for f in $WT/seeded/*; do case "$f" in *.log) ;; *) cp -r "$f" $OUT/ 2>/dev/null;; esac; done
+PHASE=${PHASE:-all}
 export CARGO_TARGET_DIR=$WT/target CARGO_NET_OFFLINE=true
+if [ "$PHASE" != check ]; then
 cd $WT
 git apply --check seeded/patch.diff || { echo "patch does not apply in worktree"; exit 3; }
 git apply seeded/patch.diff
@@ -17,6 +20,10 @@ DEMO_WITH=$(cargo test --offline "$@" $FILTER 2>&1 | grep -E "^test result" | aw
 git apply -R seeded/patch.diff
 DEMO_WITHOUT=$(cargo test --offline "$@" $FILTER 2>&1 | grep -E "^test result" | awk '{p+=$4; f+=$6} END{print p" passed "f" failed"}')
 echo "suite with change (incl. demo): $SUITE | demo with: $DEMO_WITH | demo without: $DEMO_WITHOUT"
+printf '%s\n%s\n%s\n' "$SUITE" "$DEMO_WITH" "$DEMO_WITHOUT" > $OUT/.verify
+fi
+[ "$PHASE" = verify ] && exit 0
+SUITE=$(sed -n 1p $OUT/.verify); DEMO_WITH=$(sed -n 2p $OUT/.verify); DEMO_WITHOUT=$(sed -n 3p $OUT/.verify)
 unset CARGO_TARGET_DIR
 cd /verif
 git -C /repo apply $OUT/patch.diff || { echo "patch does not apply to /repo"; exit 3; }
